@@ -2,6 +2,7 @@ package sim
 
 import (
 	"encoding/binary"
+	"time"
 
 	"github.com/tsuna/gohbase/pb"
 	"google.golang.org/protobuf/proto"
@@ -85,4 +86,40 @@ func (s *Server) Send(b []byte) {
 func (s *Server) CloseConn() {
 	vrt.Yield("srv.close")
 	s.Conn.SrvClose = true
+}
+
+// ServeReal is the pass-through (free-running) counterpart of Run: a real
+// goroutine that polls the connection under the harness lock and answers every
+// decoded frame with respond's bytes. It returns when the client closes.
+func (s *Server) ServeReal(respond func(f *Frame) []byte) {
+	c := s.Conn
+	pre := false
+	for {
+		vrt.HLock()
+		if c.Closed || s.Stop {
+			vrt.HUnlock()
+			return
+		}
+		if !pre && len(c.C2S) >= 10 && len(c.C2S) >= 10+be32(c.C2S[6:10]) {
+			c.C2S = c.C2S[10+be32(c.C2S[6:10]):]
+			pre = true
+		}
+		for pre {
+			fb, rest, ok := SplitFrame(c.C2S)
+			if !ok {
+				break
+			}
+			c.C2S = rest
+			f, err := ParseRequestC(fb, s.Compressed)
+			if err != nil {
+				s.Errors = append(s.Errors, err.Error())
+				c.SrvClose = true
+				break
+			}
+			s.Frames = append(s.Frames, f)
+			c.S2C = append(c.S2C, respond(f)...)
+		}
+		vrt.HUnlock()
+		time.Sleep(100 * time.Microsecond)
+	}
 }
